@@ -1,21 +1,25 @@
-(* What is PROVED about the decoder IR (see notes/DecFIR.md for what is not):
-     - dprogs_match_parts: a program set accepted by [dprogs_match] consists, container by container, of exactly
-       `dcompile t d c` for a struct declaration d that fits the schema (so every statement about dcompile is a
-       statement about the translated code);
-     - the equality "run ps fuel bs = of_opt (decode t fuel bs) for ALL byte strings" is FALSE of what the LLRP
-       schema compiles to (and of Go): three closed counterexamples, by computation;
-   the sampled agreement (the IR semantics of this run's translated decoders and the model decoder both return v
-   from the encoding of v, for a sample of well-formed v of all 169 containers) is a per-run theorem,
-   build/gen/C01/Ob_samples.v.
-   NOT proved (the target, stated for the record):
-     forall t ps, dec_schema_ok t = true -> dprogs_match t ps = true ->
-     forall msg tid bs v fuel, byte_list bs -> decode t fuel msg tid bs = Some v -> wfv t v -> big_enough fuel ->
-       run ps fuel msg tid bs = DOk v. *)
-From Coq Require Import NArith List Bool.
-From LLRP Require Import Codec.Schema Codec.Encode Codec.Decode Codec.Wf Codec.WfBool Codec.SchemaTable
-     EncIR.IR EncIR.Compile EncIR.EqbSound DecFIR.IR DecFIR.Compile DecFIR.Sem DecFIR.EqbSound.
+(* The semantics (DecFIR/Sem.v) of the decoder IR the schema compiles to (DecFIR/Compile.v) follows the model decoder
+   Codec/Decode.v: whatever the model decodes to a well-formed value, the IR decodes to the same value; hence so does any
+   translated program set accepted by [dprogs_match].
+
+     Theorem dprogs_match_correct t ps : dec_schema_ok t = true -> dprogs_match t ps = true ->
+       forall msg tid bs v fuel, byte_list bs -> decode t fuel msg tid bs = Some v -> wfv t v ->
+         run ps (if msg then S fuel else fuel) msg tid bs = DOk v.
+
+   (no "big enough fuel" premise: that the model succeeded with [fuel] is enough; a message's decoder calls its
+   parameters' decoders with the model's fuel, hence the S.)  Corollary over encodings: dprogs_match_encode.
+   Layers: FieldsCorrect.v (d_fields), ModelFacts.v (the model's sub-parameter decoder), SubsCorrect.v (d_subs),
+   SizesCorrect.v (minimum sizes), this file (d_len, leftover, zero receiver, recursion over nesting, messages).
+   Also here (unchanged): the equality "run = of_opt decode for ALL byte strings" is FALSE of what the LLRP schema
+   compiles to (and of Go): three closed counterexamples, by computation. *)
+From Coq Require Import NArith ZArith List Bool Arith Lia ZifyN ZifyNat ZifyBool.
+From LLRP Require Import Codec.Schema Codec.Encode Codec.Decode Codec.Wf Codec.WfBool Codec.BytesLemmas Codec.RoundTrip Codec.BitSpec Codec.BitSpecProofs
+     Codec.SchemaTable
+     EncIR.IR EncIR.Compile EncIR.EqbSound EncIR.CompileCorrect DecFIR.IR DecFIR.Compile DecFIR.Sem DecFIR.EqbSound
+     DecFIR.FieldsCorrect DecFIR.ModelFacts DecFIR.SubsCorrect DecFIR.SizesCorrect.
 Import ListNotations.
 Open Scope N_scope.
+Ltac Zify.zify_post_hook ::= Z.div_mod_to_equations.
 
 Lemma dprogs_match_parts t ps : dprogs_match t ps = true ->
   dp_has_le ps = true /\
@@ -74,5 +78,643 @@ Theorem decoder_forward_needs_wf_refuted :
              wfvb llrp_table v = false /\
              run llrp_dec 16 false 243 [0; 243; 0; 14; 0; 0; 0; 0; 0; 0; 0; 0; 0; 0] = DErr).
 Proof.
-  split; eexists; vm_compute; repeat split; reflexivity.
+  split.
+  - exists (VStruct false 144 [] [VList []; VStruct false 146 [VNum 0] [VList []; VOpt None];
+                                  VStruct false 328 [] [VList []]; VOpt None]).
+    repeat split; vm_compute; reflexivity.
+  - exists (VStruct false 243 [VNum 0; VNum 0; VNum 0; VNum 0]
+                    [VStruct false 128 [VNum 0] []; VStruct false 129 [VNum 0] []]).
+    repeat split; vm_compute; reflexivity.
 Qed.
+
+(* ================= the refinement theorem ================= *)
+
+(* ---------- what the proof needs of the table (all checked by computation on the LLRP table) ---------- *)
+(* an exclusive alternative has at least one value field: its zero value is recognisably absent *)
+Definition alt_has_field (t : table) (s : sub) : bool :=
+  match s_arity s, s_group s =? 0 with
+  | One, false => match find_container t false (s_tid s) with
+                  | Some c' => match fields_zero (c_fields c') with [] => false | _ => true end
+                  | None => false end
+  | _, _ => true
+  end.
+
+(* an inline parameter made of a sub-byte field is one bit wide (the parent reads it as `!= 0` when the Go type is a bool) *)
+Definition inline_bit_ok (c : container) : bool :=
+  negb (inline_of c) || match c_fields c with [FBits b _ _] => Nat.eqb b 1 | _ => true end.
+
+(* without sub-parameters, the field statements leave the slice empty when `len(data) > 0` is tested (the last field
+   is variable-size, hence resliced); a fixed-size message has no sub-parameters (`len(data) != k`) *)
+Definition tail_ok (t : table) (c : container) : bool :=
+  match c_subs c with
+  | [] => fxd t c || match c_fields c with [] => true | _ => negb (f_fixed (last (c_fields c) FRest)) end
+  | _ => negb (is_msg_kind (c_kind c) && fxd t c)
+  end.
+
+Definition dcontainer_ok (t : table) (c : container) : bool :=
+  fs_ok (c_fields c) && size_ok t c && forallb (alt_has_field t) (c_subs c) &&
+  runs_ok t (length (c_subs c)) (c_subs c) && inline_bit_ok c && tail_ok t c.
+
+Definition dec_schema_ok (t : table) : bool := enc_schema_ok t && forallb (dcontainer_ok t) t.
+
+(* ---------- small facts about the schema functions ---------- *)
+Lemma ffs_fixed fs : forall n, fixed_fields_size fs = Some n ->
+  fixed_size fs = N.of_nat n /\ forallb f_fixed fs = true.
+Proof.
+  induction fs as [|f fs IH]; intros n H; cbn [fixed_fields_size] in H.
+  - injection H as <-. split; reflexivity.
+  - destruct (fixed_fields_size fs) as [m|]; [|discriminate]. destruct (IH m eq_refl) as [E1 E2].
+    cbn [fixed_size forallb]. rewrite E1, E2.
+    destruct f; try discriminate H; injection H as <-; cbn [f_fixed andb]; split; try reflexivity; try lia.
+    destruct partial; lia.
+Qed.
+
+Lemma msz_nosubs t c : c_subs c = [] -> msz t c = header_size (c_kind c) + fixed_size (c_fields c).
+Proof.
+  intros E. unfold msz, sizes_fuel. cbn [min_size]. rewrite E. unfold fields_min.
+  destruct (c_kind c); cbn [fold_right group_mins]; lia.
+Qed.
+
+Lemma fxd_nosubs t c : c_subs c = [] -> fxd t c = forallb f_fixed (c_fields c).
+Proof. intros E. unfold fxd, sizes_fuel. cbn [is_fixed]. rewrite E. cbn [forallb]. apply andb_true_r. Qed.
+
+Lemma fxd_fields t c : fxd t c = true -> forallb f_fixed (c_fields c) = true.
+Proof. unfold fxd, sizes_fuel. cbn [is_fixed]. intros H. apply andb_true_iff in H. apply H. Qed.
+
+(* all fields fixed: what is consumed is the fixed size *)
+Lemma fixed_exact fs : forall M vs r, forallb f_fixed fs = true -> dec_fields fs M = Some (vs, r) ->
+  blen M = fixed_size fs + blen r.
+Proof.
+  induction fs as [|f fs IH]; intros M vs r Hf H.
+  - cbn in H. injection H as _ <-. cbn. lia.
+  - cbn [forallb] in Hf. apply andb_true_iff in Hf as [Hf1 Hf].
+    rewrite dec_fields_cons in H. destruct (dec1 f M) as [[v1 M1]|] eqn:E1; [|discriminate].
+    destruct (dec_fields fs M1) as [[vs' r']|] eqn:E2; [|discriminate]. injection H as _ <-.
+    specialize (IH _ _ _ Hf E2). cbn [fixed_size]. unfold blen in *.
+    destruct f; try discriminate Hf1; cbn [dec1] in E1.
+    + destruct (take_exact size M) as [[e r0]|] eqn:T; [|discriminate]. injection E1 as _ <-.
+      destruct (take_exact_spec _ _ _ _ T) as (_ & -> & Hl & _). rewrite skipn_length in IH. lia.
+    + destruct M as [|b r0]; [discriminate|]. injection E1 as _ <-. destruct partial; cbn [length] in *; lia.
+    + destruct (take_exact size M) as [[e r0]|] eqn:T; [|discriminate]. injection E1 as _ <-.
+      destruct (take_exact_spec _ _ _ _ T) as (_ & -> & Hl & _). rewrite skipn_length in IH. lia.
+    + destruct (take_exact n M) as [[e r0]|] eqn:T; [|discriminate]. injection E1 as _ <-.
+      destruct (take_exact_spec _ _ _ _ T) as (_ & -> & Hl & _). rewrite skipn_length in IH. lia.
+Qed.
+
+Lemma has_rest_last fs : fs_ok fs = true -> has_rest fs = true -> fs <> [] /\ last fs FRest = FRest.
+Proof.
+  induction fs as [|f fs IH]; intros Hok Hr; [discriminate Hr|]. split; [discriminate|].
+  unfold has_rest in Hr. cbn [existsb] in Hr.
+  destruct f; cbn [fs_ok] in Hok; cbn [orb] in Hr;
+    try (destruct (IH Hok Hr) as [Hne Hl]; destruct fs; [contradiction|exact Hl]).
+  - apply andb_true_iff in Hok as [_ Hok]. destruct (IH Hok Hr) as [Hne Hl]. destruct fs; [contradiction|exact Hl].
+  - destruct fs; [reflexivity|discriminate Hok].
+Qed.
+
+Lemma fslots_fields_zero fs : fslots (fields_zero fs) = fzeros fs /\ shaped fs (fields_zero fs).
+Proof.
+  induction fs as [|f fs [IH1 IH2]]; [split; reflexivity|].
+  destruct f; cbn [fields_zero field_zero fzeros flat_map fzero shaped]; unfold fslots in *; cbn [flat_map fslot app];
+    try (rewrite IH1; split; [reflexivity|split; [exact I|exact IH2]]).
+  split; assumption.
+Qed.
+
+Lemma nslots_fslots fs : forall vs, shaped fs vs -> nslots fs = N.of_nat (length (fslots vs)).
+Proof.
+  induction fs as [|f fs IH]; intros vs H; cbn [shaped nslots] in *.
+  - subst vs. reflexivity.
+  - destruct f; try (cbn [slots]; rewrite N.add_0_l; apply IH; exact H);
+      (destruct vs as [|v vs]; [contradiction|]; destruct H as [H1 H2];
+       destruct v; try contradiction; unfold fslots; cbn [flat_map fslot slots]; rewrite app_length;
+       fold (fslots vs); rewrite (IH vs H2); cbn [length]; lia).
+Qed.
+
+Lemma wf_fields_nil fs : wf_fields fs [] -> fields_zero fs = [].
+Proof.
+  induction fs as [|f fs IH]; intros H; [reflexivity|]. cbn [wf_fields] in H.
+  destruct f; try contradiction. cbn [fields_zero field_zero]. apply IH, H.
+Qed.
+
+Lemma dcompile_parts t d c :
+  d_struct (dcompile t d c) = d /\
+  d_shape (dcompile t d c) = shape_of c /\ d_len (dcompile t d c) = compile_lenck t c /\
+  (exists kn0,
+     d_fields (dcompile t d c) =
+     fst (if inline_of c
+          then ([DStore 0 (match c_fields c with f :: _ => value_of f (gnth d 0) 0 | [] => XByte 0 end)], kn0)
+          else compile_dfields d (c_fields c) (match c_subs c with [] => false | _ => true end) 0 0 kn0)) /\
+  (exists kn, d_subs (dcompile t d c) = compile_dsubs t d (length (c_subs c)) (c_subs c) (nslots (c_fields c)) kn) /\
+  d_leftover (dcompile t d c) = match compile_lenck t c with LMsgEmpty => false | _ => leftover_of t c end.
+Proof.
+  unfold dcompile.
+  match goal with |- context [if inline_of c then (?a, ?k) else ?b] =>
+    destruct (if inline_of c then (a, k) else b) as [fl kn1] eqn:E; set (k0 := k) in * end.
+  cbn [d_struct d_shape d_len d_fields d_subs d_leftover].
+  repeat split; eauto. exists k0. subst k0. rewrite E. reflexivity.
+Qed.
+
+Lemma dec_subs_length t d z subs : forall data ch vs r,
+  dec_subs t d z subs data ch = Some (vs, r) -> length vs = length subs.
+Proof.
+  induction subs as [|s subs IH]; intros data ch vs r H; cbn [dec_subs] in H.
+  - injection H as <- _. reflexivity.
+  - destruct (s_arity s).
+    + destruct (s_group s =? 0).
+      * destruct (d (s_tid s) data) as [[v r0]|]; [|discriminate].
+        destruct (dec_subs t d z subs r0 ch) as [[vs' r']|] eqn:E; [|discriminate]. injection H as <- _.
+        cbn [length]. f_equal. eapply IH; eauto.
+      * destruct (negb (ch =? s_group s) && announces t data (s_tid s)).
+        -- destruct (d (s_tid s) data) as [[v r0]|]; [|discriminate].
+           destruct (dec_subs t d z subs r0 (s_group s)) as [[vs' r']|] eqn:E; [|discriminate]. injection H as <- _.
+           cbn [length]. f_equal. eapply IH; eauto.
+        -- destruct (dec_subs t d z subs data ch) as [[vs' r']|] eqn:E; [|discriminate]. injection H as <- _.
+           cbn [length]. f_equal. eapply IH; eauto.
+    + destruct (announces t data (s_tid s)).
+      * destruct (d (s_tid s) data) as [[v r0]|]; [|discriminate].
+        destruct (dec_subs t d z subs r0 ch) as [[vs' r']|] eqn:E; [|discriminate]. injection H as <- _.
+        cbn [length]. f_equal. eapply IH; eauto.
+      * destruct (dec_subs t d z subs data ch) as [[vs' r']|] eqn:E; [|discriminate]. injection H as <- _.
+        cbn [length]. f_equal. eapply IH; eauto.
+    + destruct (dec_many t (d (s_tid s)) (s_tid s) (length data) data) as [[l r0]|]; [|discriminate].
+      destruct (dec_subs t d z subs r0 ch) as [[vs' r']|] eqn:E; [|discriminate]. injection H as <- _.
+      cbn [length]. f_equal. eapply IH; eauto.
+Qed.
+
+Section Main.
+  Variable t : table.
+  Variable ps : dprograms.
+  Hypothesis Hwf : wf_schema t = true.
+  Hypothesis Hextra : forall c, In c t -> container_extra_ok t c = true.
+  Hypothesis Hdok : forall c, In c t -> dcontainer_ok t c = true.
+  Hypothesis Hle : dp_has_le ps = true.
+  Hypothesis Hprogs : forall c, In c t ->
+    exists p, dlookup (dp_progs ps) (is_msg_kind (c_kind c)) (c_tid c) = Some p /\
+              struct_ok c (d_struct p) (d_inline p) = true /\ p = dcompile t (d_struct p) c.
+
+  Lemma lookup_prog msg tid c : find_container t msg tid = Some c ->
+    In c t /\ is_msg_kind (c_kind c) = msg /\ c_tid c = tid /\
+    exists p, dlookup (dp_progs ps) msg tid = Some p /\ struct_ok c (d_struct p) (d_inline p) = true /\
+              p = dcompile t (d_struct p) c.
+  Proof.
+    intros F. destruct (find_container_spec _ _ _ _ F) as (Hin & Hm & Ht). repeat split; try assumption.
+    destruct (Hprogs c Hin) as (p & Hl & Hs & Hp). rewrite Hm, Ht in Hl. eauto.
+  Qed.
+
+  Lemma dok_parts c : In c t ->
+    fs_ok (c_fields c) = true /\ size_ok t c = true /\ forallb (alt_has_field t) (c_subs c) = true /\
+    runs_ok t (length (c_subs c)) (c_subs c) = true /\ inline_bit_ok c = true /\ tail_ok t c = true.
+  Proof.
+    intros Hin. pose proof (Hdok c Hin) as H. unfold dcontainer_ok in H.
+    repeat (apply andb_true_iff in H as [H ?]). repeat split; assumption.
+  Qed.
+
+  Lemma wf_parts c : In c t ->
+    wf_sub_order (c_subs c) = true /\ forallb (wf_sub t) (c_subs c) = true /\
+    (has_rest (c_fields c) = false \/ c_subs c = []) /\ kind_ok c /\
+    (c_kind c = KTV -> c_subs c = [] /\ exists n, fixed_fields_size (c_fields c) = Some n) /\
+    groups_ok (c_subs c) = true.
+  Proof.
+    intros Hin. assert (Hc : wf_container t c = true).
+    { unfold wf_schema in Hwf. rewrite forallb_forall in Hwf. apply Hwf, Hin. }
+    destruct (container_parts t c Hc) as (_ & Hrest & Hord & Hsubs & Hk & Htv).
+    repeat split; try assumption; try (apply Htv; assumption).
+    pose proof (Hextra c Hin) as Hx. unfold container_extra_ok in Hx.
+    apply andb_true_iff in Hx as [Hx _]. apply andb_true_iff in Hx as [Hx _]. exact Hx.
+  Qed.
+
+  Lemma sub_has_container c s : In c t -> In s (c_subs c) -> exists c', find_container t false (s_tid s) = Some c'.
+  Proof.
+    intros Hin Hs. destruct (wf_parts c Hin) as (_ & Hsubs & _). rewrite forallb_forall in Hsubs.
+    specialize (Hsubs s Hs). unfold wf_sub in Hsubs.
+    destruct (find_container t false (s_tid s)) as [c'|]; [eauto|discriminate].
+  Qed.
+
+  (* ---- the zero receiver ---- *)
+  Lemma zero_slots_eq k p c : d_shape p = shape_of c ->
+    zero_slots ps k p = fzeros (c_fields c) ++ map (zslot (zero_val ps k)) (c_subs c).
+  Proof.
+    intros E. unfold zero_slots. rewrite E. unfold shape_of. rewrite map_app, fzeros_shape, map_map. f_equal.
+    apply map_ext. intros s. unfold zslot. destruct (s_arity s); reflexivity.
+  Qed.
+
+  Lemma assemble_shape c fvs svs : shaped (c_fields c) fvs -> length svs = length (c_subs c) ->
+    assemble (shape_of c) (fslots fvs ++ svs) = Some (fvs, svs).
+  Proof.
+    intros Hs Hl. unfold shape_of. apply assemble_fields; [| |exact Hs].
+    - intros zk Hz. apply in_map_iff in Hz as (s & <- & _). destruct (s_arity s); exact I.
+    - rewrite map_length. symmetry. exact Hl.
+  Qed.
+
+  Lemma zero_val_eq : forall k tid c, find_container t false tid = Some c -> zero_val ps k tid = zero_param t k tid.
+  Proof.
+    induction k as [|k IH]; intros tid c F; [reflexivity|].
+    destruct (lookup_prog _ _ _ F) as (Hin & Hm & Ht & p & Hl & Hso & Hp).
+    cbn [zero_val zero_param]. rewrite Hl, F.
+    destruct (dcompile_parts t (d_struct p) c) as (_ & Hsh & _). rewrite <- Hp in Hsh.
+    fold (zero_slots ps k p). rewrite (zero_slots_eq k p c Hsh), Hsh.
+    destruct (fslots_fields_zero (c_fields c)) as [E1 E2]. rewrite <- E1.
+    rewrite (assemble_shape c _ _ E2) by (rewrite map_length; reflexivity).
+    f_equal. apply map_ext_in. intros s Hs. unfold zslot. destruct (s_arity s); try reflexivity.
+    destruct (sub_has_container c s Hin Hs) as (c' & F'). apply (IH _ _ F').
+  Qed.
+
+  Lemma zslot_eq k c : In c t -> map (zslot (zero_val ps k)) (c_subs c) = map (zslot (zero_param t k)) (c_subs c).
+  Proof.
+    intros Hin. apply map_ext_in. intros s Hs. unfold zslot. destruct (s_arity s); try reflexivity.
+    destruct (sub_has_container c s Hin Hs) as (c' & F'). apply (zero_val_eq _ _ _ F').
+  Qed.
+
+  (* ---- side conditions in the form the sub-parameter layer wants them ---- *)
+  Lemma inl_ok : inl_spec t.
+  Proof.
+    intros tid c' F Hi f Ef. destruct (find_container_spec _ _ _ _ F) as (Hin & _).
+    destruct (dok_parts c' Hin) as (Hfs & _ & _ & _ & Hib & _).
+    unfold inline_bit_ok in Hib. rewrite Hi, Ef in Hib. cbn [negb orb] in Hib. rewrite Ef in Hfs.
+    unfold inline_of in Hi. rewrite Ef in Hi. apply andb_true_iff in Hi as [_ Hi].
+    destruct f; try discriminate Hi; cbn [fs_ok fbits_ok] in *.
+    - split; [reflexivity|exact I].
+    - apply andb_true_iff in Hfs as [Hfs _]. apply andb_true_iff in Hfs as [Hfs _].
+      split; [exact Hfs|apply Nat.eqb_eq, Hib].
+  Qed.
+
+  Lemma zalt_of k c : In c t -> zalt_ok (zero_param t k) (wfv t) (c_subs c).
+  Proof.
+    intros Hin s Hs Ar G. destruct (dok_parts c Hin) as (_ & _ & Halt & _).
+    rewrite forallb_forall in Halt. specialize (Halt s Hs). unfold alt_has_field in Halt. rewrite Ar, G in Halt.
+    destruct (find_container t false (s_tid s)) as [c'|] eqn:F; [|discriminate].
+    destruct (fields_zero (c_fields c')) as [|v0 vs0] eqn:Fz; [discriminate|].
+    destruct k as [|k].
+    - right. cbn [zero_param wfv]. rewrite F. intros (Hf & _). apply wf_fields_nil in Hf. congruence.
+    - left. cbn [zero_param]. rewrite F. cbn [alt_nonzero]. rewrite Fz. cbn [forallb].
+      assert (Hz0 : field_nonzero v0 = false).
+      { clear - Fz. induction (c_fields c') as [|f fs IH]; [discriminate|]. cbn [fields_zero] in Fz.
+        destruct f; cbn [field_zero] in Fz; try (injection Fz as <- _; reflexivity). apply IH, Fz. }
+      rewrite Hz0. reflexivity.
+  Qed.
+
+  (* ---- what remains after the fields is a suffix of the input ---- *)
+  Lemma dec_fields_suffix fs : forall M vs r, dec_fields fs M = Some (vs, r) -> exists n, r = skipn n M.
+  Proof.
+    induction fs as [|f fs IH]; intros M vs r H.
+    - cbn in H. injection H as _ <-. exists 0%nat. reflexivity.
+    - rewrite dec_fields_cons in H. destruct (dec1 f M) as [[v1 M1]|] eqn:E1; [|discriminate].
+      destruct (dec_fields fs M1) as [[vs' r']|] eqn:E2; [|discriminate]. injection H as _ <-.
+      destruct (IH _ _ _ E2) as (n & ->).
+      assert (Hs : exists m, M1 = skipn m M).
+      { destruct f; cbn [dec1] in E1.
+        - destruct (take_exact size M) as [[e r0]|] eqn:T; [|discriminate]. injection E1 as _ <-.
+          destruct (take_exact_spec _ _ _ _ T) as (_ & -> & _). eauto.
+        - destruct M as [|b r0]; [discriminate|]. injection E1 as _ <-. destruct partial; [exists 0%nat|exists 1%nat]; reflexivity.
+        - destruct (take_exact size M) as [[e r0]|] eqn:T; [|discriminate]. injection E1 as _ <-.
+          destruct (take_exact_spec _ _ _ _ T) as (_ & -> & _). eauto.
+        - destruct (take_exact n0 M) as [[e r0]|] eqn:T; [|discriminate]. injection E1 as _ <-.
+          destruct (take_exact_spec _ _ _ _ T) as (_ & -> & _). eauto.
+        - unfold take_u16 in E1. destruct M as [|a [|b r0]]; try discriminate.
+          destruct (take_nums (N.to_nat (a * 256 + b)) esize r0) as [[ns r1]|] eqn:T; [|discriminate]. injection E1 as _ <-.
+          destruct (read_elems_ok esize r0 _ 0 ns r1 ltac:(lia) T) as (_ & _ & ->).
+          exists (2 + N.to_nat (0 + N.of_nat (N.to_nat (a * 256 + b)) * N.of_nat esize))%nat. reflexivity.
+        - unfold take_u16 in E1. destruct M as [|a [|b r0]]; try discriminate.
+          destruct (take_exact (N.to_nat (a * 256 + b)) r0) as [[e r1]|] eqn:T; [|discriminate]. injection E1 as _ <-.
+          destruct (take_exact_spec _ _ _ _ T) as (_ & -> & _). exists (2 + N.to_nat (a * 256 + b))%nat. reflexivity.
+        - unfold take_u16 in E1. destruct M as [|a [|b r0]]; try discriminate.
+          destruct (take_exact (N.to_nat (bitarr_nbytes (a * 256 + b))) r0) as [[e r1]|] eqn:T; [|discriminate]. injection E1 as _ <-.
+          destruct (take_exact_spec _ _ _ _ T) as (_ & -> & _). exists (2 + N.to_nat (bitarr_nbytes (a * 256 + b)))%nat. reflexivity.
+        - injection E1 as _ <-. exists (length M). symmetry. apply skipn_all. }
+      destruct Hs as (m & ->). exists (m + n)%nat. apply skipn_skipn'.
+  Qed.
+
+  Lemma inline_body c d0 z0 body v : inline_of c = true -> dec_body t d0 z0 c false body = Some v ->
+    exists f x, c_fields c = [f] /\ v = VStruct false (c_tid c) [VNum x] [] /\ dec_fields [f] body = Some ([VNum x], []).
+  Proof.
+    unfold inline_of, dec_body. intros Hi H. apply andb_true_iff in Hi as [_ Hi].
+    destruct (c_fields c) as [|f [|f2 fr]]; try discriminate Hi; [|destruct f; discriminate Hi].
+    destruct (c_subs c); [|destruct f; discriminate Hi].
+    destruct (dec_fields [f] body) as [[fvs r]|] eqn:Ef; [|discriminate]. cbn [dec_subs] in H.
+    destruct r; [|discriminate]. injection H as <-. exists f. pose proof Ef as Ef0.
+    assert (Hx : exists x, fvs = [VNum x]).
+    { destruct f; try discriminate Hi; cbn [dec_fields] in Ef.
+      - destruct (take_exact size body) as [[e r0]|]; [|discriminate]. injection Ef as <- _. eauto.
+      - destruct body as [|b r0]; [discriminate|]. injection Ef as <- _. eauto. }
+    destruct Hx as (x & ->). exists x. repeat split. exact Ef0.
+  Qed.
+
+  Definition body_ok (k : nat) : Prop :=
+    forall msg tid c body v, find_container t msg tid = Some c ->
+      dec_body t (dec_param t k) (zero_param t k) c msg body = Some v -> wfv t v -> byte_list body ->
+      run_prog ps (S k) msg tid body = DOk v /\ msz t c <= header_size (c_kind c) + blen body.
+
+  Lemma dspec_0 : dspec t (dec_param t 0) (wfv t) (run_prog ps 0 false).
+  Proof. intros tid data v r H. discriminate H. Qed.
+
+  Lemma byte_list_app_inv (a b : bytes) : byte_list (a ++ b) -> byte_list a /\ byte_list b.
+  Proof. unfold byte_list. intros H. apply Forall_app in H. exact H. Qed.
+
+  (* a parameter = its header + its body *)
+  Lemma dspec_step k : body_ok k -> dspec t (dec_param t (S k)) (wfv t) (run_prog ps (S k) false).
+  Proof.
+    intros Hbk tid data v r H. cbn [dec_param] in H.
+    destruct (find_container t false tid) as [c|] eqn:F; [|discriminate].
+    destruct (lookup_prog _ _ _ F) as (Hin & Hm & Ht & _).
+    destruct (wf_parts c Hin) as (_ & _ & _ & Hk & Htv & _). unfold kind_ok in Hk.
+    exists c. destruct (c_kind c) eqn:K; [discriminate| |].
+    - (* TLV *)
+      destruct data as [|b0 [|b1 [|l0 [|l1 r0]]]]; try discriminate.
+      destruct ((b0 * 256 + b1 =? tid) && (4 <=? l0 * 256 + l1)) eqn:C; [|discriminate].
+      apply andb_true_iff in C as [C1 C2]. apply N.eqb_eq in C1. apply N.leb_le in C2.
+      destruct (take_exact (N.to_nat (l0 * 256 + l1 - 4)) r0) as [[body rest]|] eqn:T; [|discriminate].
+      destruct (dec_body t (dec_param t k) (zero_param t k) c false body) as [v0|] eqn:B; [|discriminate].
+      injection H as <- <-. destruct (take_exact_spec _ _ _ _ T) as (E1 & E2 & Hl & Hn).
+      assert (Er : r0 = body ++ rest) by (rewrite E1, E2; symmetry; apply firstn_skipn).
+      exists body. split; [reflexivity|]. split; [|split; [|split]].
+      + unfold pframe. rewrite K. rewrite Ht in Hk. destruct Hk as [Hk1 Hk2]. repeat split; try assumption.
+        exists b0, b1, l0, l1. rewrite Er. repeat split; [exact C1|]. unfold blen. lia.
+      + intros X; discriminate X.
+      + intros Hi. destruct (inline_body c _ _ body v0 Hi B) as (f & x & Ef & Ev & Ed). rewrite Ht in Ev. eauto.
+      + intros Hw Hb. rewrite <- K. apply (Hbk false tid c body v0 F B Hw).
+        rewrite Er in Hb. change (b0 :: b1 :: l0 :: l1 :: body ++ rest) with ([b0; b1; l0; l1] ++ body ++ rest) in Hb.
+        apply byte_list_app_inv in Hb as [_ Hb]. apply byte_list_app_inv in Hb as [Hb _]. exact Hb.
+    - (* TV *)
+      destruct (Htv eq_refl) as (Hns & n & Hn). rewrite Hn in H.
+      destruct data as [|b0 r0]; [discriminate|].
+      destruct (b0 =? tid + 128) eqn:C; [|discriminate]. apply N.eqb_eq in C.
+      destruct (take_exact n r0) as [[body rest]|] eqn:T; [|discriminate].
+      destruct (dec_body t (dec_param t k) (zero_param t k) c false body) as [v0|] eqn:B; [|discriminate].
+      injection H as <- <-. destruct (take_exact_spec _ _ _ _ T) as (E1 & E2 & Hl & Hlen).
+      assert (Er : r0 = body ++ rest) by (rewrite E1, E2; symmetry; apply firstn_skipn).
+      exists body. split; [reflexivity|]. split; [|split; [|split]].
+      + unfold pframe. rewrite K. rewrite Ht in Hk. split; [exact Hk|]. rewrite C, Er. reflexivity.
+      + intros _. destruct (ffs_fixed _ _ Hn) as [Ef Eff]. split.
+        * rewrite (msz_nosubs t c Hns), K, Ef. cbn [header_size]. unfold blen. lia.
+        * rewrite (fxd_nosubs t c Hns). exact Eff.
+      + intros Hi. destruct (inline_body c _ _ body v0 Hi B) as (f & x & Ef & Ev & Ed). rewrite Ht in Ev. eauto.
+      + intros Hw Hb. rewrite <- K. apply (Hbk false tid c body v0 F B Hw).
+        rewrite Er in Hb. change (b0 :: body ++ rest) with ([b0] ++ body ++ rest) in Hb.
+        apply byte_list_app_inv in Hb as [_ Hb]. apply byte_list_app_inv in Hb as [Hb _]. exact Hb.
+  Qed.
+
+  (* ---- the minimum size of a container is a lower bound ---- *)
+  Lemma size_bound k c body fvs r svs :
+    dspec t (dec_param t k) (wfv t) (run_prog ps k false) -> In c t ->
+    dec_fields (c_fields c) body = Some (fvs, r) ->
+    dec_subs t (dec_param t k) (zero_param t k) (c_subs c) r 0 = Some (svs, []) ->
+    wf_subs t (wfv t) (c_subs c) svs 0 0 -> byte_list body ->
+    msz t c <= header_size (c_kind c) + blen body.
+  Proof.
+    intros Hd Hin Ef Es Hws Hb.
+    destruct (dok_parts c Hin) as (_ & Hsize & _). destruct (wf_parts c Hin) as (_ & _ & _ & _ & _ & Hgo).
+    pose proof (dec_fields_len _ _ _ _ Ef) as L1. rewrite rest_min_fixed in L1.
+    destruct (dec_fields_suffix _ _ _ _ Ef) as (n & Er).
+    assert (Hbr : byte_list r) by (rewrite Er; apply byte_list_skipn, Hb).
+    assert (Hfsz : forall tid data v r0, dec_param t k tid data = Some (v, r0) ->
+              exists c' body0, find_container t false tid = Some c' /\ pframe c' tid body0 data r0 /\
+                (wfv t v -> byte_list data -> msz t c' <= header_size (c_kind c') + blen body0)).
+    { intros tid data v r0 H. destruct (Hd _ _ _ _ H) as (c' & body0 & F' & P & _ & _ & Hc).
+      exists c', body0. repeat split; try assumption. intros Hw' Hb'. apply (Hc Hw' Hb'). }
+    pose proof (lb_sound t (dec_param t k) (zero_param t k) (wfv t) Hfsz (length (c_subs c)) (c_subs c) r 0 svs
+                  (Nat.le_refl _) Hgo (zalt_of k c Hin) (or_introl eq_refl) Es Hws Hbr) as L2.
+    unfold size_ok in Hsize. apply N.leb_le in Hsize. lia.
+  Qed.
+
+  (* an inline parameter's own decoder is the field statement of its only field *)
+  Lemma fields_prog c d0 kn0 : fs_ok (c_fields c) = true ->
+    fst (if inline_of c
+         then ([DStore 0 (match c_fields c with f :: _ => value_of f (gnth d0 0) 0 | [] => XByte 0 end)], kn0)
+         else compile_dfields d0 (c_fields c) (match c_subs c with [] => false | _ => true end) 0 0 kn0) =
+    fst (compile_dfields d0 (c_fields c) (match c_subs c with [] => false | _ => true end) 0 0 kn0).
+  Proof.
+    intros Hfs. destruct (inline_of c) eqn:Hi; [|reflexivity].
+    unfold inline_of in Hi. apply andb_true_iff in Hi as [_ Hi].
+    destruct (c_fields c) as [|f [|f2 fr]]; try discriminate Hi; [|destruct f; discriminate Hi].
+    destruct (c_subs c); [|destruct f; discriminate Hi].
+    destruct f; try discriminate Hi; cbn [fs_ok] in Hfs.
+    - reflexivity.
+    - destruct partial; [apply andb_true_iff in Hfs as [Hfs _]; apply andb_true_iff in Hfs as [_ Hfs]; discriminate Hfs|].
+      reflexivity.
+  Qed.
+
+  Lemma finish_ok p c msg tid fvs svs : d_shape p = shape_of c -> shaped (c_fields c) fvs ->
+    length svs = length (c_subs c) -> finish p msg tid (fslots fvs ++ svs) = DOk (VStruct msg tid fvs svs).
+  Proof. intros Hsh Hs Hl. unfold finish. rewrite Hsh, (assemble_shape c fvs svs Hs Hl). reflexivity. Qed.
+
+  (* ---- one container, given its parameters' decoders ---- *)
+  Lemma body_step k : dspec t (dec_param t k) (wfv t) (run_prog ps k false) -> body_ok k.
+  Proof.
+    intros Hd msg tid c body v F Hbody Hw Hb.
+    destruct (lookup_prog _ _ _ F) as (Hin & Hm & Ht & p & Hl & Hso & Hp).
+    destruct (dok_parts c Hin) as (Hfs & Hsize & Halt & Hruns & Hib & Htail).
+    destruct (wf_parts c Hin) as (Hord & Hwsubs & Hrest & Hk & Htv & Hgo).
+    unfold dec_body in Hbody.
+    destruct (dec_fields (c_fields c) body) as [[fvs r]|] eqn:Ef; [|discriminate].
+    destruct (dec_subs t (dec_param t k) (zero_param t k) (c_subs c) r 0) as [[svs r']|] eqn:Es; [|discriminate].
+    destruct r' as [|]; [|discriminate]. injection Hbody as <-.
+    cbn [wfv] in Hw. rewrite Ht, F in Hw. destruct Hw as (Hwf_f & Hwf_s & _).
+    assert (Hsz : msz t c <= header_size (c_kind c) + blen body) by (eapply size_bound; eauto).
+    split; [|exact Hsz]. rewrite Ht.
+    pose proof (dec_fields_shaped _ _ _ _ Ef) as Hshaped.
+    pose proof (dec_subs_length _ _ _ _ _ _ _ _ Es) as Hlen_s.
+    destruct (dcompile_parts t (d_struct p) c) as (_ & Hsh & Hlk & (kn0 & Hfl) & (kn & Hsb) & Hlo).
+    rewrite <- Hp in Hsh, Hlk, Hfl, Hsb, Hlo. rewrite (fields_prog c _ kn0 Hfs) in Hfl.
+    assert (Hfo : exists d', fields_ok (c_fields c) (d_struct p) = Some d').
+    { unfold struct_ok in Hso. apply andb_true_iff in Hso as [_ Hso].
+      destruct (fields_ok (c_fields c) (d_struct p)) as [d'|]; [eauto|discriminate]. }
+    destruct Hfo as (d' & Hfo).
+    set (hs := match c_subs c with [] => false | _ => true end) in *.
+    set (S0 := map (zslot (zero_param t k)) (c_subs c)).
+    assert (Hz0 : zero_slots ps k p = fzeros (c_fields c) ++ S0).
+    { rewrite (zero_slots_eq k p c Hsh), (zslot_eq k c Hin). reflexivity. }
+    destruct (fields_sim (d_struct p) hs S0 (c_fields c) (d_struct p) d' [] 0 0 kn0 body [] fvs r
+                eq_refl eq_refl eq_refl Hfo Hfs ltac:(lia) Hb Ef) as (fl & Hex & Hend).
+    cbn [app] in Hex, Hend.
+    (* the statements after the length check *)
+    assert (Hrun : dbind (exec_fs (d_fields p) body (zero_slots ps k p)) (fun fl =>
+                   match fl with
+                   | Done sl => finish p msg tid sl
+                   | Next d0 sl =>
+                     dbind (exec_ss (dp_has_le ps) (run_prog ps k false) (d_subs p) d0 sl) (fun fl2 =>
+                     match fl2 with
+                     | Done sl2 => finish p msg tid sl2
+                     | Next d2 sl2 => if d_leftover p && negb (blen d2 =? 0) then DErr else finish p msg tid sl2
+                     end)
+                   end) = DOk (VStruct msg tid fvs svs)).
+    { rewrite Hfl, Hz0, Hex. cbn [dbind].
+      destruct fl as [D' sl|sl]; cbn [fend] in Hend.
+      - destruct Hend as (-> & HbD & Hcase).
+        assert (Hcs : c_subs c = [] \/ c_subs c <> []) by (destruct (c_subs c); [now left|right; discriminate]).
+        destruct Hcs as [Esubs|Esubs].
+        + (* no sub-parameters *)
+          assert (ES0 : S0 = []) by (unfold S0; rewrite Esubs; reflexivity).
+          rewrite Esubs in Es. cbn [dec_subs] in Es. injection Es as <- ->. rewrite ES0.
+          rewrite Hsb, Esubs. cbn [length compile_dsubs exec_ss dbind].
+          assert (Hlo' : d_leftover p && negb (blen D' =? 0) = false).
+          { rewrite Hlo. destruct (compile_lenck t c) eqn:Elk; try reflexivity;
+              (unfold tail_ok in Htail; rewrite Esubs in Htail; unfold leftover_of; rewrite Esubs;
+               destruct (fxd t c); [reflexivity|]; cbn [orb] in Htail;
+               destruct (c_fields c) as [|f0 fs0] eqn:Efs; [reflexivity|]; rewrite <- Efs in *;
+               destruct Hcase as [[Hr _]|[Hp0 Hr]];
+               [destruct (has_rest_last _ Hfs Hr) as [_ ->]; reflexivity|];
+               apply negb_true_iff in Htail;
+               rewrite (fpos_var (c_fields c) hs 0 ltac:(rewrite Efs; discriminate) Htail) in Hr; cbn [N.to_nat skipn] in Hr;
+               subst D'; rewrite andb_false_r; reflexivity). }
+          rewrite Hlo'.
+          apply (finish_ok p c); [exact Hsh|exact Hshaped|rewrite Esubs; reflexivity].
+        + (* sub-parameters *)
+          assert (Hhs : hs = true) by (unfold hs; destruct (c_subs c); [contradiction|reflexivity]).
+          assert (Hr : r = D').
+          { destruct Hcase as [[Hr _]|[_ Hr]].
+            - destruct Hrest as [X|X]; [congruence|contradiction].
+            - assert (Hp0 : fpos (c_fields c) hs 0 = 0).
+              { rewrite Hhs. destruct (c_fields c) as [|f0 fs0] eqn:Efs; [reflexivity|].
+                apply fpos_subs. discriminate. }
+              rewrite Hp0 in Hr. exact Hr. }
+          subst D'. rewrite Hsb, Hle.
+          destruct (subs_sim t (dec_param t k) (zero_param t k) (wfv t) (run_prog ps k false) (d_struct p) Hd inl_ok
+                      true eq_refl (length (c_subs c)) (c_subs c) (nslots (c_fields c)) kn r 0 svs (fslots fvs)
+                      (Nat.le_refl _) Hord Hgo (fun s Hs => sub_has_container c s Hin Hs) (zalt_of k c Hin) Hruns
+                      (or_introl eq_refl) Es Hwf_s HbD (nslots_fslots _ _ Hshaped)) as (fl2 & Hex2 & Hfin).
+          fold S0 in Hex2. rewrite Hex2. cbn [dbind].
+          destruct Hfin as [-> | ->].
+          * apply (finish_ok p c); assumption.
+          * change (blen [] =? 0) with true. cbn [negb]. rewrite andb_false_r. apply (finish_ok p c); assumption.
+      - destruct Hend as (-> & Hr & ->).
+        destruct Hrest as [X|X]; [congruence|]. unfold S0. rewrite X in *. cbn [dec_subs] in Es. injection Es as <-.
+        cbn [map]. apply (finish_ok p c); [exact Hsh|exact Hshaped|rewrite X; reflexivity]. }
+    (* the length check that opens the decoder *)
+    cbn [run_prog]. rewrite Hl. cbv zeta. rewrite Hrun, Hlk. unfold compile_lenck.
+    destruct (c_kind c) eqn:K; cbn [is_msg_kind] in Hm.
+    - (* message *)
+      destruct (is_empty c) eqn:Eem.
+      + unfold is_empty in Eem. destruct (c_fields c) eqn:Efs; [|discriminate Eem].
+        destruct (c_subs c) eqn:Esubs; [|discriminate Eem].
+        cbn [dec_fields] in Ef. injection Ef as <- <-. cbn [dec_subs] in Es. injection Es as <- ->.
+        change (0 <? blen []) with false. cbv iota. rewrite Hz0, ?Efs. unfold S0. rewrite ?Esubs. cbn [map fzeros flat_map app].
+        change (@nil value) with (fslots [] ++ []) at 1.
+        apply (finish_ok p c); [exact Hsh|rewrite ?Efs; reflexivity|rewrite ?Esubs; reflexivity].
+      + destruct (fxd t c) eqn:Efx.
+        * (* fixed-size message: no sub-parameters, the size is exact *)
+          unfold tail_ok in Htail. rewrite ?K, ?Efx in Htail. cbn [is_msg_kind andb negb] in Htail.
+          destruct (c_subs c) eqn:Esubs; [|discriminate Htail].
+          cbn [dec_subs] in Es. injection Es as _ ->.
+          pose proof (fixed_exact _ _ _ _ (fxd_fields t c Efx) Ef) as Ex.
+          rewrite (msz_nosubs t c Esubs), ?K. cbn [header_size].
+          replace (blen body =? 0 + fixed_size (c_fields c)) with true
+            by (symmetry; apply N.eqb_eq; unfold blen in *; cbn [length] in Ex; lia).
+          reflexivity.
+        * rewrite ?K in Hsz. cbn [header_size] in Hsz.
+          replace (blen body <? msz t c) with false by (symmetry; apply N.ltb_ge; lia). reflexivity.
+    - (* TLV parameter *)
+      rewrite ?K in Hsz.
+      destruct ((msz t c - header_size KTLV =? 0) && negb (is_empty c)); [reflexivity|].
+      unfold has_enough. rewrite Hle.
+      replace (msz t c - header_size KTLV <=? blen body) with true by (symmetry; apply N.leb_le; lia). reflexivity.
+    - (* TV parameter *)
+      rewrite ?K in Hsz.
+      destruct ((msz t c - header_size KTV =? 0) && negb (is_empty c)); [reflexivity|].
+      unfold has_enough. rewrite Hle.
+      replace (msz t c - header_size KTV <=? blen body) with true by (symmetry; apply N.leb_le; lia). reflexivity.
+  Qed.
+
+  (* ---- the recursion over nesting depth ---- *)
+  Lemma all_levels : forall k, dspec t (dec_param t k) (wfv t) (run_prog ps k false) /\ body_ok k.
+  Proof.
+    induction k as [|k [IHd IHb]].
+    - split; [apply dspec_0|apply body_step, dspec_0].
+    - pose proof (dspec_step k IHb) as Hd. split; [exact Hd|apply body_step, Hd].
+  Qed.
+
+  Lemma frame_body_ok c' tid body data : pframe c' tid body data [] -> frame_body tid data = Some body.
+  Proof.
+    unfold pframe, frame_body. destruct (c_kind c'); [contradiction| |].
+    - intros (H1 & H2 & b0 & b1 & l0 & l1 & -> & Et & El). rewrite app_nil_r.
+      replace (tid <? 128) with false by (symmetry; apply N.ltb_ge; lia).
+      rewrite Et, N.eqb_refl, El.
+      replace (4 <=? 4 + blen body) with true by (symmetry; apply N.leb_le; lia).
+      replace (4 + blen body =? blen (b0 :: b1 :: l0 :: l1 :: body)) with true
+        by (symmetry; apply N.eqb_eq; unfold blen; cbn [length]; lia).
+      reflexivity.
+    - intros (H1 & ->). rewrite app_nil_r.
+      replace (tid <? 128) with true by (symmetry; apply N.ltb_lt; lia). rewrite N.eqb_refl. reflexivity.
+  Qed.
+
+  (* what the harness observes: whatever the model decodes to a well-formed value, the code decodes to that value *)
+  Theorem run_decodes msg tid bs v fuel :
+    byte_list bs -> decode t fuel msg tid bs = Some v -> wfv t v ->
+    run ps (if msg then S fuel else fuel) msg tid bs = DOk v.
+  Proof.
+    intros Hb H Hw. unfold decode in H. destruct msg.
+    - unfold dec_msg in H. destruct (find_container t true tid) as [c|] eqn:F; [|discriminate].
+      unfold run. apply (proj2 (all_levels fuel) true tid c bs v F H Hw Hb).
+    - destruct (dec_param t fuel tid bs) as [[v0 r]|] eqn:E; [|discriminate]. destruct r; [|discriminate].
+      injection H as ->.
+      destruct (proj1 (all_levels fuel) _ _ _ _ E) as (c' & body & F & P & _ & _ & Hc).
+      destruct (Hc Hw Hb) as [Hrun _]. unfold run. rewrite (frame_body_ok c' tid body bs P). exact Hrun.
+  Qed.
+End Main.
+
+(* ---------- from the decidable checks to the hypotheses of the section ---------- *)
+Lemma dec_schema_ok_parts t : dec_schema_ok t = true ->
+  wf_schema t = true /\ (forall c, In c t -> container_extra_ok t c = true) /\
+  (forall c, In c t -> dcontainer_ok t c = true).
+Proof.
+  unfold dec_schema_ok. intros H. apply andb_true_iff in H as [H1 H2].
+  destruct (enc_schema_ok_parts t H1) as [Hwf Hx]. repeat split; try assumption.
+  intros c Hin. rewrite forallb_forall in H2. apply H2, Hin.
+Qed.
+
+(* the generic theorem: a translated program set accepted by dprogs_match decodes what the model decodes *)
+Theorem dprogs_match_correct t ps :
+  dec_schema_ok t = true -> dprogs_match t ps = true ->
+  forall msg tid bs v fuel, byte_list bs -> decode t fuel msg tid bs = Some v -> wfv t v ->
+    run ps (if msg then S fuel else fuel) msg tid bs = DOk v.
+Proof.
+  intros Hs Hm msg tid bs v fuel Hb Hdec Hw.
+  destruct (dec_schema_ok_parts t Hs) as (Hwf & Hx & Hdk). destruct (dprogs_match_parts t ps Hm) as [Hle Hp].
+  exact (run_decodes t ps Hwf Hx Hdk Hle Hp msg tid bs v fuel Hb Hdec Hw).
+Qed.
+
+(* over encodings: the code decodes the encoding of every well-formed value to that value *)
+Corollary dprogs_match_encode t ps :
+  dec_schema_ok t = true -> dprogs_match t ps = true ->
+  forall msg tid fs ss bs fuel, wfv t (VStruct msg tid fs ss) -> (depth (VStruct msg tid fs ss) <= fuel)%nat ->
+    encode t (VStruct msg tid fs ss) = Some bs ->
+    run ps (if msg then S fuel else fuel) msg tid bs = DOk (VStruct msg tid fs ss).
+Proof.
+  intros Hs Hm msg tid fs ss bs fuel Hw Hd He.
+  destruct (dec_schema_ok_parts t Hs) as (Hwf & _).
+  destruct (encode_matches_layout t _ bs Hwf Hw He) as [_ Hb].
+  apply (dprogs_match_correct t ps Hs Hm msg tid bs _ fuel Hb); [|exact Hw].
+  apply (decode_encode t msg tid fs ss bs fuel Hwf Hw Hd He).
+Qed.
+
+(* the pinned LLRP table satisfies the side conditions *)
+Lemma llrp_dec_schema_ok : dec_schema_ok llrp_table = true.
+Proof. vm_compute. reflexivity. Qed.
+
+Theorem dprogs_match_correct_llrp ps :
+  dprogs_match llrp_table ps = true ->
+  forall msg tid bs v fuel, byte_list bs -> decode llrp_table fuel msg tid bs = Some v -> wfv llrp_table v ->
+    run ps (if msg then S fuel else fuel) msg tid bs = DOk v.
+Proof. exact (dprogs_match_correct llrp_table ps llrp_dec_schema_ok). Qed.
+
+Theorem dprogs_match_encode_llrp ps :
+  dprogs_match llrp_table ps = true ->
+  forall msg tid fs ss bs fuel, wfv llrp_table (VStruct msg tid fs ss) -> (depth (VStruct msg tid fs ss) <= fuel)%nat ->
+    encode llrp_table (VStruct msg tid fs ss) = Some bs ->
+    run ps (if msg then S fuel else fuel) msg tid bs = DOk (VStruct msg tid fs ss).
+Proof. exact (dprogs_match_encode llrp_table ps llrp_dec_schema_ok). Qed.
+
+(* The text between the markers is pasted by checks/dec_fir.py into the per-run obligation file
+   build/gen/C01/Ob_decoder.v, after `decoder_code_matches_schema : dprogs_match llrp_table dec_all = true`
+   (dec_all = the decoders translated from THIS run's generated_unmarshal.go). *)
+(* PER-RUN CONSEQUENCE
+Theorem C01_run_decoder_code_refines_model : forall msg tid bs v fuel,
+  byte_list bs -> decode llrp_table fuel msg tid bs = Some v -> wfv llrp_table v ->
+  run dec_all (if msg then S fuel else fuel) msg tid bs = DOk v.
+Proof. exact (dprogs_match_correct_llrp dec_all decoder_code_matches_schema). Qed.
+Print Assumptions C01_run_decoder_code_refines_model.
+Theorem C01_run_decoder_code_decodes_encodings : forall msg tid fs ss bs fuel,
+  wfv llrp_table (VStruct msg tid fs ss) -> (depth (VStruct msg tid fs ss) <= fuel)%nat ->
+  encode llrp_table (VStruct msg tid fs ss) = Some bs ->
+  run dec_all (if msg then S fuel else fuel) msg tid bs = DOk (VStruct msg tid fs ss).
+Proof. exact (dprogs_match_encode_llrp dec_all decoder_code_matches_schema). Qed.
+Print Assumptions C01_run_decoder_code_decodes_encodings.
+END PER-RUN CONSEQUENCE *)
